@@ -269,6 +269,25 @@ CHECKS['C13'] = ('DESIGN.md#C13',
     'Trusted: math.erf, scipy quad / Bessel functions. Known finding F17 '
     '(rotated narrow GaussianPRF) excluded by signature and counted.')
 
+CHECKS['C14'] = ('DESIGN.md#C14',
+    'Hypothesis-generated palette images (ties, plateaus, negatives, NaN) '
+    'vs. a brute-force per-pixel peak oracle; generated star fields and '
+    'finder configurations vs. validity predicates, a selection '
+    'differential against the wide-open run, independently convolved '
+    'candidate peaks and the xycoords round trip',
+    'Generated-input search: find_peaks must return exactly the unmasked, '
+    'non-border, non-NaN pixels above the (scalar/2-D) threshold that equal '
+    'the maximum of footprint-intersect-image, the npeaks largest, with '
+    'centroids equal to centroid_sources; DAOStarFinder/IRAFStarFinder/'
+    'StarFinder must return exactly the rows of their unfiltered run that '
+    'satisfy the inclusive bounds, the N largest fluxes for brightest=N, '
+    'ids 1..N, finite values, each within the kernel of a local maximum of '
+    'the independently convolved image, the same table for xycoords= those '
+    'peaks, and None (with warning) iff nothing qualifies. Held on N cases; '
+    'not a proof.',
+    'Trusted: scipy.ndimage.convolve. Known finding F16 (non-positive peaks '
+    'near the edge) is set aside per case, counted and reported as known.')
+
 NOT_APPLICABLE = []
 
 
